@@ -1079,7 +1079,8 @@ def spaths(prog: Program, func: FuncInfo, cls=None) -> list[Path]:
     """The paths of `func` with its private multi-statement helpers spliced in (see splice_helpers), memoised."""
     key = (id(prog), func.qualname, func.bound.qualname if func.bound else None, cls.qualname if cls is not None else None)
     if key not in _scache:
-        _scache[key] = splice_helpers(prog, paths_of(prog, func), cls=cls)
+        # (helpers that rules analyse under their own name stay calls, decorated or not)
+        _scache[key] = splice_helpers(prog, paths_of(prog, func), cls=cls, only=lambda fi: fi.qualname not in NOT_INLINED)
     return _scache[key]
 
 
